@@ -228,6 +228,34 @@ def AdmRun (cfg : Cfg) : List Nat → Arena → List Op → Prop
     StepFresh cfg (nbs.headD 0) a op ∧
       ∀ a1 o, exec cfg (nbs.headD 0) a op = .ok (a1, o) → AdmRun cfg nbs.tail a1 ops
 
+/-! ## never-cleared memory
+
+`_yr_arena_allocate_memory` clears memory only on the growth path, so a zeroed allocation served from spare
+capacity left by a *raw* growth returns whatever realloc left there: the model flags this (`unspec`) instead of
+inventing contents.  The side condition under which it cannot happen is a property of the op list alone. -/
+
+/-- the buffer that receives a raw (not zeroed) allocation -/
+def opRaw : Op → Option Nat
+  | .write b _ => some b
+  | .ptr b _ => some b
+  | _ => none
+
+def opZeroed : Op → Option Nat
+  | .zalloc b _ => some b
+  | .struct b _ _ => some b
+  | _ => none
+
+/-- no zeroed allocation goes to a buffer that earlier received a raw allocation (`raws`: those so far) -/
+def KindsOK : List Nat → List Op → Bool
+  | _, [] => true
+  | raws, op :: ops =>
+    (match opZeroed op with
+     | some b => !raws.contains b
+     | none => true) &&
+    KindsOK (match opRaw op with | some b => b :: raws | none => raws) ops
+
+def DirtyIn (a : Arena) (raws : List Nat) : Prop := ∀ j, (a.bufAt j).dirty = true → j ∈ raws
+
 instance (a : Arena) (b newBase nc : Nat) : Decidable (Fresh a b newBase nc) :=
   decidable_of_iff
     (newBase ≠ 0 ∧ ((a.bufAt b).data.length ≤ nc ∧ newBase + nc ≤ 2 ^ 64) ∧
